@@ -188,14 +188,15 @@ Section LD.
 Variable ts : list token.
 Local Notation len := (zlen ts).
 
-(* every non-empty white-space run that ends before the end of the list ends at a significant token i and - if it holds a
-   newline token - was passed the indent token_depth ts i *)
-Theorem program_depth root e :
+(* program_depth, and: the run that reaches the end of the list is passed the indent 0 *)
+Theorem program_depth_full root e :
   lua_parse ts = Ok (root, e) -> consumed ts e = true -> writable ts root = true ->
   no_trailing_sep root = true ->
   exists cs, writer_chunks ts (view root) = Ok (cs, len) /\
-    forall s ind at_end run, In (Trivia s ind at_end run) cs -> run <> [] -> s + zlen run < len ->
-      sigb ts (s + zlen run) = true /\ (existsb is_newline run = true -> ind = token_depth ts (s + zlen run)).
+    forall s ind at_end run, In (Trivia s ind at_end run) cs -> run <> [] ->
+      (s + zlen run < len ->
+       sigb ts (s + zlen run) = true /\ (existsb is_newline run = true -> ind = token_depth ts (s + zlen run))) /\
+      (s + zlen run = len -> ind = 0).
 Proof.
   intros Hp Hc Hw Hts.
   destruct (parse_shape ts lua_binops lua_unops lua_binops_nontrivia lua_unops_nontrivia root e Hp) as (He & Hsp & Hsh & fs & Hroot).
@@ -218,9 +219,24 @@ Proof.
   rewrite Hat. cbn [negb]. unfold seq. rewrite E1. unfold spaces_to. cbn [w_pos]. rewrite P1.
   unfold ntok. rewrite trailing_run by (first [lia | exact Hns]).
   eexists. split; [reflexivity|]. unfold rev'. rewrite <- rev_alt. cbn [w_out rev]. rewrite O1, rev_involutive.
-  intros s ind at_end run Hin Hne Hlt. apply in_app_or in Hin. destruct Hin as [Hin|[Hin|[]]].
-  - rewrite Forall_forall in G1. specialize (G1 _ Hin). cbn [goodD] in G1. destruct G1 as [G1|G1]; [contradiction | exact G1].
-  - exfalso. injection Hin as <- _ _ <-. rewrite trailing_run in Hlt by (first [lia | exact Hns]). lia.
+  intros s ind at_end run Hin Hne. apply in_app_or in Hin. destruct Hin as [Hin|[Hin|[]]].
+  - rewrite Forall_forall in G1. specialize (G1 _ Hin). cbn [goodD] in G1. destruct G1 as [G1|G1]; [contradiction|].
+    split; [intros _; exact G1|]. intros Heq. exfalso. destruct G1 as [G1 _]. apply sigb_range in G1. lia.
+  - injection Hin as <- <- _ <-. split; [|intros _; exact I1].
+    intros Hlt. exfalso. rewrite trailing_run in Hlt by (first [lia | exact Hns]). lia.
+Qed.
+
+(* every non-empty white-space run that ends before the end of the list ends at a significant token i and - if it holds a
+   newline token - was passed the indent token_depth ts i *)
+Theorem program_depth root e :
+  lua_parse ts = Ok (root, e) -> consumed ts e = true -> writable ts root = true ->
+  no_trailing_sep root = true ->
+  exists cs, writer_chunks ts (view root) = Ok (cs, len) /\
+    forall s ind at_end run, In (Trivia s ind at_end run) cs -> run <> [] -> s + zlen run < len ->
+      sigb ts (s + zlen run) = true /\ (existsb is_newline run = true -> ind = token_depth ts (s + zlen run)).
+Proof.
+  intros Hp Hc Hw Hts. destruct (program_depth_full root e Hp Hc Hw Hts) as (cs & Hcs & H). exists cs. split; [exact Hcs|].
+  intros s ind at_end run Hin Hne Hlt. exact (proj1 (H s ind at_end run Hin Hne) Hlt).
 Qed.
 
 
